@@ -59,3 +59,11 @@ def run(ctx):
     ctx.floor("T5", 12)
     B.b14_stacks_balanced(ctx, only_classes=("EqPathParallelSpecFinder", "ParallelSpecFinder"))
     ctx.floor("B14", 4)
+    B.b16_path_steps_filtered_by_equivalence(ctx)
+    ctx.floor("B16", 1)
+    from ..engines import closure as GC
+    GC.g8_labels_after_final_rules(ctx)
+    ctx.floor("G8", 1)
+    from ..engines import sizecheck as SCC
+    SCC.s0_compositions(ctx)
+    ctx.floor("S0", 4)
